@@ -166,6 +166,9 @@ def make_environ(case):
 
 
 def run_impl(case):
+    if c3.wsgi_cov.ENABLED:
+        import os
+        c3.wsgi_cov.start(os.environ.get('VERIF_REPO', '/repo'))
     import ombott.ombott as om
     rec = c3.Rec()
     saved = om.format_exc
